@@ -86,6 +86,14 @@ func (m *Migrator) MigrateFiles(patterns []string, outputPath string) error {
 
 			// Extract source imports for package reference resolution
 			sourceImports := m.parser.ExtractImports(file)
+			// an unnamed import is known by the name of the package, which need not be the last path element
+			for _, imp := range file.Imports {
+				if pn := pkg.TypesInfo.PkgNameOf(imp); imp.Name == nil && pn != nil {
+					path := strings.Trim(imp.Path.Value, "\"")
+					delete(sourceImports, lastPathElement(path))
+					sourceImports[pn.Name()] = path
+				}
+			}
 
 			// Extract patterns
 			patterns, warnings := m.parser.ExtractPatterns(file, pkg.TypesInfo, wireImport, filePath)
